@@ -2,6 +2,7 @@ package main
 
 import (
 	"bufio"
+	"go/types"
 	"encoding/json"
 	"fmt"
 	"os"
@@ -52,14 +53,55 @@ func loadAnchors(prop string) (*propAnchors, error) {
 	return nil, fmt.Errorf("property %s not found in properties.jsonl", prop)
 }
 
+// noise packages: calls into them never enter the sibling facts (messages, logging, timing)
+var siblingNoisePkgs = map[string]bool{"fmt": true, "errors": true, "time": true, "strings": true, "strconv": true, "log": true,
+	"github.com/rs/zerolog": true, "github.com/consensys/gnark/logger": true, "runtime": true, "runtime/debug": true, "sort": true, "slices": true}
+
+// funcFacts: order-insensitive structural facts of fn with calls to helpers of the same package inlined (their
+// facts are rewritten into fn's parameter space), so that extracting or inlining a helper does not change them.
 func funcFacts(fn *ssa.Function) map[string]int {
+	return funcFactsD(fn, 0, map[*ssa.Function]bool{})
+}
+
+func funcFactsD(fn *ssa.Function, depth int, onStack map[*ssa.Function]bool) map[string]int {
 	facts := map[string]int{}
+	if onStack[fn] {
+		return facts
+	}
+	onStack[fn] = true
+	defer delete(onStack, fn)
 	var walk func(f *ssa.Function)
 	walk = func(f *ssa.Function) {
 		for _, b := range f.Blocks {
 			for _, ins := range b.Instrs {
 				switch x := ins.(type) {
 				case *ssa.Call:
+					cal := x.Call.StaticCallee()
+					if cal != nil {
+						if pk := FuncPkg(cal); pk != nil {
+							if siblingNoisePkgs[pk.Path()] {
+								continue
+							}
+							if pk == FuncPkg(fn) && cal.Blocks != nil && depth < 2 && cal.Parent() == nil {
+								var args []string
+								for _, a := range x.Call.Args {
+									args = append(args, normFact(Abstract(normIdx(Desc(a)))))
+								}
+								for k, n := range funcFactsD(cal, depth+1, onStack) {
+									facts[substKey(k, args)] += n
+								}
+								continue
+							}
+						}
+					}
+					if bi, ok := x.Call.Value.(*ssa.Builtin); ok && (bi.Name() == "len" || bi.Name() == "cap" || bi.Name() == "print" || bi.Name() == "println") {
+						continue
+					}
+					if x.Call.IsInvoke() {
+						if n, ok := x.Call.Value.Type().(*types.Named); ok && n.Obj().Pkg() != nil && siblingNoisePkgs[n.Obj().Pkg().Path()] {
+							continue
+						}
+					}
 					facts[normFact("call:"+Abstract(normIdx(CallKey(&x.Call))))]++
 				case *ssa.Go:
 					facts["go:"+Abstract(CalleeName(&x.Call))]++
@@ -79,14 +121,6 @@ func funcFacts(fn *ssa.Function) map[string]int {
 					}
 				case *ssa.Panic:
 					facts["panic"]++
-				case *ssa.Return:
-					facts["return"]++
-				case *ssa.If:
-					facts["if"]++
-				case *ssa.Range:
-					facts["range"]++
-				case *ssa.MakeClosure:
-					facts["closure"]++
 				}
 			}
 		}
@@ -96,14 +130,6 @@ func funcFacts(fn *ssa.Function) map[string]int {
 	}
 	walk(fn)
 	return facts
-}
-
-var bigIntRe = regexp.MustCompile(`\b([3-9]\d|\d{3,})\b`)
-
-// normFact removes curve-size dependent numbers: array sizes and integer constants >= 30 (field / point byte sizes).
-func normFact(s string) string {
-	s = arrSizeRe.ReplaceAllString(s, "[N]$1")
-	return bigIntRe.ReplaceAllString(s, "K")
 }
 
 func factsKey(m map[string]int) string {
@@ -210,3 +236,11 @@ var siblingAsym = map[string]string{
 }
 
 var arrSizeRe = regexp.MustCompile(`\[\d+\](byte|uint64|uint32)`)
+
+var bigIntRe = regexp.MustCompile(`\b([3-9]\d|\d{3,})\b`)
+
+// normFact removes curve-size dependent numbers: array sizes and integer constants >= 30 (field / point byte sizes).
+func normFact(s string) string {
+	s = arrSizeRe.ReplaceAllString(s, "[N]$1")
+	return bigIntRe.ReplaceAllString(s, "K")
+}
